@@ -26,7 +26,8 @@ def gen_cfg(i: int) -> semgen.GenCfg:
         unanchored_patterns=(i % 6 == 1),
         nonintegral_int_bounds=(i % 9 == 4),
         all_of=(i % 3 != 0),
-        boost=("allOf" if i % 4 == 1 else ("union" if i % 4 == 3 else "")),
+        boost=("disc" if i % 8 == 7 else ("allOf" if i % 4 == 1 else ("union" if i % 4 == 3 else ""))),
+        discriminators=(i % 2 == 1),
     )
 
 
@@ -114,12 +115,14 @@ def add_undeclared(doc: dict, inst: Any) -> tuple[Any, str] | None:
 
 
 # ============================================================ (a) validJ vs jsonschema, (b) tr vs parser, (c) acceptsTy vs classes
-def campaign_model(ck: Check, n: int) -> None:
-    ca = ck.campaign("sem.valid (Dcg.Sem.validJ) vs jsonschema on seeded (schema, instance) pairs")
-    cb = ck.campaign("sem.tr (Model.Translate.tr) vs IR dump of JsonSchemaParser(...).parse_raw()")
-    cc = ck.campaign("sem.accepts (Sem.Pyd.acceptsTy ∘ tr) vs the exec'd generated classes")
+def campaign_model(ck: Check, n: int, parts: tuple = ("valid", "tr", "acc"), fork: str = "model") -> None:
+    """`parts`: which of the three correspondences to run (C14 runs the stage-1 comparison only)"""
+    ca = ck.campaign("sem.valid (Dcg.Sem.validJ) vs jsonschema on seeded (schema, instance) pairs") if "valid" in parts else None
+    cb = ck.campaign("sem.tr (Model.Translate.tr) vs IR dump of JsonSchemaParser(...).parse_raw()") if "tr" in parts else None
+    cc = ck.campaign("sem.accepts (Sem.Pyd.acceptsTy ∘ tr) vs the exec'd generated classes") if "acc" in parts else None
+    cd = ck.campaign("sem.dump (Sem.Pyd.dump ∘ tr) vs model_dump(by_alias=True, exclude_unset=True) / .json(...) of the exec'd classes") if "acc" in parts else None
     t0 = time.time()
-    rng = ck.rng.fork("model")
+    rng = ck.rng.fork(fork)
     reqs: list[str] = []
     meta: list[tuple] = []
     docs: list[tuple[dict, set]] = [(d, {f"focused:{l}"}) for l, d in focused_docs()]
@@ -130,35 +133,49 @@ def campaign_model(ck: Check, n: int) -> None:
             ssx = semlean.schema_sx(semlean.body_of(doc), top=True)
             dsx = semlean.defs_sx(doc)
         except semlean.Unmodelled as e:
-            ca.unmodelled += 1
-            ca.hit(f"unmodelled:{str(e)[:30]}")
+            c0 = ca or cb or cc
+            c0.unmodelled += 1
+            c0.hit(f"unmodelled:{str(e)[:30]}")
             continue
-        vi = semgen.valid_instances(doc)
+        vi = semgen.valid_instances(doc) if (ca or cc) else []
         muts = []
         for inst in vi[:3]:
             muts += semgen.mutations(doc, inst)
         insts = [(x, True) for x in vi] + [(m.instance, False) for m in muts]
+        if semgen.has_discriminator(doc):
+            # jsonschema-valid values whose tag does not select their branch: invalid under the discriminator
+            for inst in vi[:4]:
+                insts += [(x, False) for x in semgen.disc_invalid_variants(doc, inst)]
         try:
             rsx = semlean.regex_sx(doc, [x for x, _ in insts])
             enc = [(semlean.json_sx(x), lab, x) for x, lab in insts]
         except semlean.Unmodelled:
-            ca.unmodelled += 1
+            (ca or cb or cc).unmodelled += 1
             continue
         for f in feats:
-            ca.hit(f"feature:{f}")
-        for jx, lab, x in enc:
-            reqs.append(f"sem.valid {FUEL_VALID} {rsx} {dsx} {ssx} {jx}")
-            meta.append(("valid", doc, x, lab))
+            (ca or cb or cc).hit(f"feature:{f}")
+        if ca:
+            for jx, lab, x in enc:
+                reqs.append(f"sem.valid {FUEL_VALID} {rsx} {dsx} {ssx} {jx}")
+                meta.append(("valid", doc, x, lab))
         for st in STYLES:
-            for r in ROUTINGS:
+            for r in ROUTINGS if cb else ():
                 reqs.append(f"sem.tr {st} {r} top {ssx}")
                 meta.append(("tr", doc, st, r, None))
                 for dn, ds in (doc.get("definitions") or {}).items():
-                    reqs.append(f"sem.tr {st} {r} top {semlean.schema_sx(ds, top=True)}")
+                    # the class of a definition after the discriminator pass over the whole document
+                    reqs.append(f"sem.trdef {st} {r} {dsx} {ssx} {semlean.hx(dn)}")
                     meta.append(("tr", doc, st, r, dn))
-            for r in ("contype", "field"):
-                for jx, lab, x in enc:
-                    reqs.append(f"sem.accepts {st} {r} {FUEL_ACCEPT} {rsx} {dsx} {ssx} {jx}")
+            for r in ("contype", "field") if cc else ():
+                extra = []
+                u = add_undeclared(doc, vi[0]) if vi else None
+                if u:
+                    try:
+                        extra.append((semlean.json_sx(u[0]), True, u[0]))
+                    except semlean.Unmodelled:
+                        pass
+                for jx, lab, x in enc + extra:
+                    reqs.append(f"sem.dump {st} {r} {FUEL_ACCEPT} {rsx} {dsx} {ssx} {jx}")
                     meta.append(("acc", doc, st, r, x, lab))
     replies = ck.driver.run(reqs)
     built: dict = {}
@@ -221,8 +238,8 @@ def campaign_model(ck: Check, n: int) -> None:
                 cc.unmodelled += 1
                 cc.hit("class-not-importable")
                 continue
-            ok, _ = b.validate(x)
-            tri = rep[3:]
+            ok, obj = b.validate(x)
+            tri, decl, dumped = rep[3:].split(" ", 2)
             cc.hit(f"model:{tri}")
             if tri == "lax":
                 cc.unmodelled += 1
@@ -236,19 +253,82 @@ def campaign_model(ck: Check, n: int) -> None:
                 if comma_pattern_in_union(doc):
                     cc.hit("known:comma_in_pattern_in_union")  # D33: the rendered hint is mangled after stage 1
                     continue
+                if st == "v1" and semgen.has_discriminator(doc) and semgen.disc_const_tag(doc):
+                    cc.hit("known:v1_const_tag_member")  # D40: Field(..., const=True) written after stage 1
+                    continue
+                if st == "v2" and shadowed_class_names(b.code):
+                    cc.hit("known:member_name_shadows_class_name")  # D44: resolved wrongly when the class is built, after stage 1
+                    continue
+                if st == "v1" and semgen.allof_required_const(doc):
+                    cc.hit("known:v1_const_member_required_by_allOf")  # D41: the same `Field(..., const=True)`
+                    continue
                 ck.disagree(cc, {"doc": doc, "instance": x, "style": st, "routing": r}, tri, "accept" if ok else "reject")
             elif len(cc.samples) < 2 and not ok:
                 cc.samples.append({"doc": doc, "instance": x, "style": st, "routing": r, "verdict": tri})
+            if ok and tri == "accept":
+                # the dump: Lean's `dump` against the real serialisation of the validated object. With undeclared
+                # members AND a union the alternative pydantic picks (smart mode) is outside the model.
+                has_union = doc_has(doc, lambda s_: "anyOf" in s_ or "oneOf" in s_)
+                if decl == "0" and has_union:
+                    cd.unmodelled += 1
+                    continue
+                if causes_for(doc, x, st, "dump_mismatch") != "none":
+                    cd.hit("known-deviation")
+                    continue
+                cd.evaluations += 1
+                try:
+                    real = b.dump(obj)
+                except Exception as e:  # noqa: BLE001
+                    real = f"dump raised {type(e).__name__}"
+                model = semlean.json_of_sx(semlean.parse_sx(dumped)[0])
+                cd.hit("declared" if decl == "1" else "undeclared_member")
+                cd.hit("unchanged" if semgen.canon(model) == semgen.canon(x) else "changed")
+                cd.distinct.add(hash((semgen.canon(doc), semgen.canon(x), st, r)))
+                if semgen.canon(model) != semgen.canon(real):
+                    ck.disagree(cd, {"doc": doc, "instance": x, "style": st, "routing": r}, model, real)
+                elif len(cd.samples) < 2 and semgen.canon(model) != semgen.canon(x):
+                    cd.samples.append({"doc": doc, "instance": x, "style": st, "routing": r, "dump": model})
     for b in built.values():
         b.close()
-    for c in (ca, cb, cc):
-        c.wall_s = round((time.time() - t0) / 3, 2)
+    live = [c for c in (ca, cb, cc, cd) if c]
+    for c in live:
+        c.wall_s = round((time.time() - t0) / len(live), 2)
 
 
 # ============================================================ (d) the property oracle
+def shadowed_class_names(code: str) -> set:
+    """class names of the generated module that are also member names of one of its classes: inside that class
+    body an annotation mentioning the class is evaluated to the MEMBER (pydantic v2 resolves `Optional[OrderId]` in
+    the class namespace, where `OrderId` is the member's default) — the shadowing defect recorded by C16/C17"""
+    import ast
+
+    try:
+        tree = ast.parse(code)
+    except SyntaxError:
+        return set()
+    classes = {n.name for n in tree.body if isinstance(n, ast.ClassDef)}
+    members = {st.target.id for n in tree.body if isinstance(n, ast.ClassDef) for st in n.body if isinstance(st, ast.AnnAssign) and isinstance(st.target, ast.Name)}
+    return classes & members
+
+
+def big_exclusive_bound(doc: dict) -> bool:
+    """an exclusive bound that is an integer beyond 2**53 (JsonSchemaObject types exclusive bounds as float)"""
+
+    def p(s: dict) -> bool:
+        return any(isinstance(s.get(k), int) and not isinstance(s.get(k), bool) and abs(s[k]) > 2**53 for k in ("exclusiveMinimum", "exclusiveMaximum"))
+
+    return doc_has(doc, p)
+
+
 def causes_for(doc: dict, inst: Any, style: str, oracle: str = "valid_rejected") -> str:
     if oracle == "dump_mismatch" and style == "v1" and union_str_before_number(doc):
         return "v1_union_left_to_right"
+    if big_exclusive_bound(doc):
+        return "big_exclusive_bound_through_float"
+    if style == "v1" and semgen.has_discriminator(doc) and semgen.disc_const_tag(doc):
+        return "v1_const_tag_member"
+    if style == "v1" and semgen.allof_required_const(doc):
+        return "v1_const_member_required_by_allOf"
     if comma_pattern_in_union(doc):
         return "comma_in_pattern_in_union"
     if nonintegral_exclusive_on_integer(doc):
@@ -271,18 +351,28 @@ def _drop_absent_nones(dumped: Any, inst: Any, declared_only: bool = True) -> An
 
 
 def oracle_doc(ck: Check, camp, doc: dict, target: tuple, insts: list | None = None) -> None:
-    """target = ("v1"|"v2", routing) or (kind,) for dataclass / TypedDict"""
-    if len(target) == 2:
-        style, routing = target
+    """target = ("v1"|"v2", routing), ("v1"|"v2", routing, "openapi") (the same document sent as an
+    OpenAPI specification) or (kind,) for dataclass / TypedDict"""
+    ift = "jsonschema"
+    optname = ""
+    if len(target) >= 2:
+        style, routing = target[0], target[1]
         kind = semrun.STYLE_MODEL[style]
         opts = semrun.ROUTING_OPTS[routing]
+        if len(target) >= 3:
+            ift = target[2]
+        if len(target) == 4:
+            # a default-off option that must not change what the models accept (C14 compares it with the
+            # baseline; here the valid instances go through the models generated WITH it)
+            optname = target[3]
+            opts = {**opts, **OPTION_SETS[optname]}
     else:
         kind = target[0]
         style, routing, opts = "v2", "contype", {}
-    label = f"{style}/{routing}" if len(target) == 2 else kind
-    base = {"target": label, "style": style if len(target) == 2 else kind, "routing": routing}
+    label = (f"{style}/{routing}" + ("" if ift == "jsonschema" else f"/{ift}") + (f"+{optname}" if optname else "")) if len(target) >= 2 else kind
+    base = {"target": label, "style": style if len(target) >= 2 else kind, "routing": routing}
     inp = {"doc": doc, "target": list(target)}
-    b = semrun.build(doc, style, opts, kind=kind)
+    b = semrun.build(doc, style, opts, kind=kind, input_file_type=ift)
     camp.evaluations += 1
     camp.hit(f"target:{label}")
     if insts is None:
@@ -295,6 +385,8 @@ def oracle_doc(ck: Check, camp, doc: dict, target: tuple, insts: list | None = N
             cause = causes_for(doc, insts[0], style)
             if kind == "dataclasses.dataclass" and "non-default argument" in b.error:
                 cause = "dataclass_non_default_after_default"
+            if cause == "none" and kind == semrun.STYLE_MODEL["v2"] and shadowed_class_names(b.code):
+                cause = "member_name_shadows_class_name"
             ck.fail({**base, "oracle": "valid_rejected", "mechanism": "module_not_importable", "cause": cause}, inp, f"the generated module cannot be imported ({b.error[:200]}): no valid instance can be accepted")
         return
     try:
@@ -308,6 +400,8 @@ def oracle_doc(ck: Check, camp, doc: dict, target: tuple, insts: list | None = N
             camp.distinct.add(hash((semgen.canon(doc), semgen.canon(inst), label)))
             ok, obj = b.validate(inst)
             cause = causes_for(doc, inst, style)
+            if cause == "none" and style == "v2" and kind == semrun.STYLE_MODEL["v2"] and shadowed_class_names(b.code):
+                cause = "member_name_shadows_class_name"
             if not ok:
                 ck.fail({**base, "oracle": "valid_rejected", "mechanism": "validation_error", "cause": cause}, {**inp, "instance": inst}, f"valid instance rejected: {str(obj)[:300]}")
                 continue
@@ -319,13 +413,21 @@ def oracle_doc(ck: Check, camp, doc: dict, target: tuple, insts: list | None = N
             if kind == "dataclasses.dataclass":
                 d = _drop_absent_nones(d, inst)
             if semgen.canon(d) != semgen.canon(inst):
-                ck.fail({**base, "oracle": "dump_mismatch", "mechanism": "value_changed", "cause": causes_for(doc, inst, style, "dump_mismatch")}, {**inp, "instance": inst}, f"dump by wire name differs: {semgen.canon(d)[:300]} vs instance {semgen.canon(inst)[:300]}")
+                c1 = causes_for(doc, inst, style, "dump_mismatch")
+                und = semgen.undeclared_members(doc, semlean.body_of(doc), inst)
+                if und and c1 in ("none", "nonintegral_bound_on_integer", "comma_in_pattern_in_union"):
+                    # a member the (open) schema does not declare — e.g. the tag of a discriminated alternative
+                    ck.fail({**base, "oracle": "dump_mismatch", "mechanism": "undeclared_member_dropped", "cause": f"undeclared_member_ap_{sorted(und)[0]}"}, {**inp, "instance": inst}, f"undeclared member lost on dump: {semgen.canon(d)[:300]} vs instance {semgen.canon(inst)[:300]}")
+                else:
+                    ck.fail({**base, "oracle": "dump_mismatch", "mechanism": "value_changed", "cause": c1}, {**inp, "instance": inst}, f"dump by wire name differs: {semgen.canon(d)[:300]} vs instance {semgen.canon(inst)[:300]}")
         for inst, ap in extra_cases:
             camp.evaluations += 1
             camp.hit(f"undeclared_member:{ap}")
             ok, obj = b.validate(inst)
             if not ok:
                 c0 = causes_for(doc, inst, style)
+                if c0 == "none" and kind == semrun.STYLE_MODEL["v2"] and shadowed_class_names(b.code):
+                    c0 = "member_name_shadows_class_name"
                 ck.fail({**base, "oracle": "valid_rejected", "mechanism": "validation_error", "cause": c0 if c0 != "none" else f"undeclared_member_ap_{ap}"}, {**inp, "instance": inst}, f"valid instance with an undeclared member rejected: {str(obj)[:200]}")
                 continue
             d = b.dump(obj)
@@ -340,6 +442,12 @@ def oracle_doc(ck: Check, camp, doc: dict, target: tuple, insts: list | None = N
 
 
 TARGETS = [("v1", "contype"), ("v1", "field"), ("v2", "contype"), ("v2", "field"), ("v2", "annotated")]
+OPTION_SETS = {
+    "reuse_model": {"reuse_model": True},
+    "collapse_root_models": {"collapse_root_models": True},
+}
+# (combinations of options are C14's topic: reuse_model + collapse_root_models leaves a dangling base class, C14's D43)
+OPTION_TARGETS = [("v2", "contype", "jsonschema", "reuse_model"), ("v1", "contype", "jsonschema", "reuse_model"), ("v2", "field", "jsonschema", "collapse_root_models"), ("v1", "field", "jsonschema", "collapse_root_models")]
 
 
 def focused_docs() -> list[tuple[str, dict]]:
@@ -388,10 +496,122 @@ def focused_docs() -> list[tuple[str, dict]]:
             },
         )
     )
+    docs += disc_docs()
+    docs += twin_docs()
+    rec = lambda nm: {"type": "object", "properties": {"kind": {"const": nm}, "name": {"type": "string"}, "age": {"type": "integer", "minimum": 0}}, "required": ["kind", "name"], "additionalProperties": False}  # noqa: E731
+    docs.append(
+        (
+            "tagged_records",
+            {
+                "title": "Model",
+                "type": "object",
+                "properties": {"pet": {"anyOf": [{"$ref": "#/definitions/Cat"}, {"$ref": "#/definitions/Dog"}]}, "all": {"type": "array", "items": {"oneOf": [{"$ref": "#/definitions/Cat"}, {"$ref": "#/definitions/Dog"}, {"$ref": "#/definitions/Bird"}]}}},
+                "required": ["pet"],
+                "definitions": {"Cat": rec("Cat"), "Dog": rec("Dog"), "Bird": rec("Bird")},
+            },
+        )
+    )
     docs.append(("nullable", {"title": "Model", "type": "object", "properties": {"a": {"type": ["string", "null"], "maxLength": 3}, "b": {"type": ["integer", "null"], "minimum": 0}, "c": {"anyOf": [{"type": "string"}, {"type": "null"}]}}, "required": ["a"]}))
     docs.append(("alias", {"title": "Model", "type": "object", "properties": {"kebab-name": {"type": "integer"}, "class": {"type": "string"}, "with space": {"type": "boolean"}, "1st": {"type": "number"}}, "required": ["kebab-name", "class"]}))
     docs.append(("dict", {"title": "Model", "type": "object", "properties": {"m": {"type": "object", "additionalProperties": {"type": "integer", "minimum": 0}}, "n": {"type": "object", "additionalProperties": {"$ref": "#/definitions/P"}}}, "definitions": {"P": {"type": "object", "properties": {"x": {"type": "number"}}, "required": ["x"]}}}))
     return docs
+
+
+def twin_docs() -> list[tuple[str, dict]]:
+    """definitions with the same members that differ in ONE detail — what a de-duplicating pass (`--reuse-model`)
+    must keep apart — in both orders, and a pair that differs in nothing"""
+    base = {"type": "object", "properties": {"name": {"type": "string"}, "n": {"type": "integer", "minimum": 0}}, "required": ["name"]}
+
+    def doc(a: dict, b: dict) -> dict:
+        return {
+            "title": "Model",
+            "type": "object",
+            "properties": {"p": {"$ref": "#/definitions/Alpha"}, "q": {"$ref": "#/definitions/Beta"}, "ps": {"type": "array", "items": {"$ref": "#/definitions/Alpha"}}},
+            "required": ["p", "q"],
+            "definitions": {"Alpha": a, "Beta": b},
+        }
+
+    variants = {
+        "ap_false_true": ({**base, "additionalProperties": False}, {**base, "additionalProperties": True}),
+        "ap_false_absent": ({**base, "additionalProperties": False}, dict(base)),
+        "bound": (dict(base), {**base, "properties": {**base["properties"], "n": {"type": "integer", "minimum": 1}}}),
+        "required": (dict(base), {**base, "required": ["name", "n"]}),
+        "const": ({**base, "properties": {"kind": {"const": "Alpha"}, **base["properties"]}}, {**base, "properties": {"kind": {"const": "Beta"}, **base["properties"]}}),
+        "identical": (dict(base), dict(base)),
+    }
+    out = []
+    for k, (a, b) in variants.items():
+        out.append((f"twins_{k}", doc(a, b)))
+        if k != "identical":
+            out.append((f"twins_{k}_rev", doc(b, a)))
+    return out
+
+
+def disc_docs() -> list[tuple[str, dict]]:
+    """discriminators: several mapping keys selecting the SAME definition, no mapping at all (every
+    definition is selected by its own name), a tag property that needs an alias, the union as array item
+    and as a definition of its own"""
+    R = "#/definitions/"
+
+    def pet(tag_prop: str, extra: str, ty: str, tag_schema: dict | None = None, **kw) -> dict:
+        props = {tag_prop: tag_schema or {"type": "string"}, extra: {"type": ty}}
+        return {"type": "object", "properties": props, "required": [tag_prop, extra], **kw}
+
+    def union(key: str, prop: str, names: list[str], mapping: dict | None) -> dict:
+        d: dict = {"propertyName": prop}
+        if mapping is not None:
+            d["mapping"] = {k: R + v for k, v in mapping.items()}
+        return {key: [{"$ref": R + n} for n in names], "discriminator": d}
+
+    out = []
+    many = {"cat": "Cat", "dog": "Dog", "puppy": "Dog", "lizard": "Lizard", "gecko": "Lizard"}
+    out.append(
+        (
+            "discriminator_multikey",
+            {
+                "title": "Model",
+                "type": "object",
+                "properties": {"name": {"type": "string"}, "pet": union("oneOf", "pet-type", ["Cat", "Dog", "Lizard"], many)},
+                "required": ["name"],
+                "definitions": {
+                    "Cat": pet("pet-type", "lives", "integer", additionalProperties=False),
+                    "Dog": pet("pet-type", "bark", "boolean", additionalProperties=False),
+                    "Lizard": pet("pet-type", "scales", "boolean", additionalProperties=False),
+                },
+            },
+        )
+    )
+    out.append(
+        (
+            "discriminator_multikey_places",
+            {
+                "title": "Model",
+                "type": "object",
+                "properties": {"pets": {"type": "array", "items": union("anyOf", "kind", ["Cat", "Dog"], {"dog": "Dog", "cat": "Cat", "puppy": "Dog", "kitten": "Cat"})}, "best": {"$ref": R + "Pet"}},
+                "required": ["pets"],
+                "definitions": {
+                    "Cat": pet("kind", "lives", "integer"),
+                    "Dog": pet("kind", "bark", "boolean", {"type": "string", "enum": ["dog", "puppy"]}),
+                    "Fish": pet("kind", "fins", "integer"),
+                    "Bird": pet("kind", "wings", "integer"),
+                    "Pet": union("oneOf", "kind", ["Fish", "Bird"], {"fish": "Fish", "bird": "Bird", "parrot": "Bird"}),
+                },
+            },
+        )
+    )
+    out.append(
+        (
+            "discriminator_implicit",
+            {
+                "title": "Model",
+                "type": "object",
+                "properties": {"pet": union("oneOf", "class", ["Cat", "Dog"], None)},
+                "required": ["pet"],
+                "definitions": {"Cat": pet("class", "lives", "integer"), "Dog": {"type": "object", "properties": {"bark": {"type": "boolean"}}, "required": ["bark"]}},
+            },
+        )
+    )
+    return out
 
 
 def deep_instances(doc: dict, label: str) -> list:
@@ -417,7 +637,12 @@ def campaign_focused(ck: Check) -> None:
             ck.infra_errors.append(f"focused document {label} has no valid instance")
         for t in TARGETS:
             oracle_doc(ck, camp, doc, t, insts)
-        if label != "alias":
+        for t in OPTION_TARGETS[:2]:
+            oracle_doc(ck, camp, doc, t, insts)
+        if label.startswith("discriminator"):
+            for t in (("v2", "contype", "openapi"), ("v1", "contype", "openapi")):
+                oracle_doc(ck, camp, doc, t, insts)
+        if label not in ("alias", "discriminator_multikey", "discriminator_implicit") and not label.startswith("allOf_required_"):
             oracle_doc(ck, camp, doc, ("dataclasses.dataclass",), insts)
         oracle_doc(ck, camp, doc, ("typing.TypedDict",), insts)
     camp.wall_s = time.time() - t0
@@ -435,6 +660,13 @@ def campaign_random(ck: Check, n: int) -> None:
         insts = semgen.valid_instances(doc)
         for t in TARGETS:
             oracle_doc(ck, camp, doc, t, insts)
+        if "discriminator" in feats and i % 4 == 3:
+            oracle_doc(ck, camp, doc, ("v2", "contype", "openapi"), insts)
+        if feats & {"twins", "tagged_records"}:
+            for t in OPTION_TARGETS[:2]:
+                oracle_doc(ck, camp, doc, t, insts)
+        elif feats & {"name_clash", "scalar_def", "root_model"} or i % 5 == 2:
+            oracle_doc(ck, camp, doc, OPTION_TARGETS[i % len(OPTION_TARGETS)], insts)
         if i % 2 == 0:
             cfg2 = gen_cfg(i)
             cfg2.alias_names = False
@@ -482,7 +714,9 @@ def run(ck: Check) -> None:
         "Dcg/Sem/Schema.validJ is our statement of JSON-Schema validity for the supported keywords (compared with jsonschema 4.x in this run); Dcg/Sem/Pyd.acceptsTy is our statement of pydantic's lax-mode validation (compared with the exec'd classes in this run); both are trusted, not verified",
         "regular expressions are an uninterpreted oracle shared by both sides of every theorem; the run-time oracle is Python re.search on a fixed pattern pool",
         "numbers are decimals with at most two fractional digits; IEEE rounding is not modelled",
-        "allOf composition and discriminators are outside the Lean Schema type: covered by the end-to-end oracle only",
+        "discriminators: validity is jsonschema's reading AND OpenAPI's (the tag selects, through the written or implicit mapping, an alternative under which the value is valid); the Lean model rewrites the class of an alternative where the tagged union looks it up, the real pass rewrites the class itself: documents in which a discriminated definition is also referenced directly, or is discriminated with two different tag sets, are outside the model (counted as unmodelled)",
+        "Dcg/Sem/Pyd.dump is our statement of model_dump(by_alias=True, exclude_unset=True) / .json(by_alias=True, exclude_unset=True); member order and the alternative pydantic's smart-mode union picks are not modelled (dumps are compared canonically, and only when `declared` holds or the document has no union)",
+        "`required` next to allOf, dataclass and TypedDict targets, and the default-off options reuse_model / collapse_root_models are covered by the end-to-end oracle only",
         "dataclass output has no aliases and no 'unset' state: documents with non-identifier member names are not sent to the dataclass target, and members that are absent in the instance (they dump as their default) are not counted as a difference",
         "pydantic-v1-style output runs on the pydantic.v1 shim of pydantic 2.x",
     ]
